@@ -22,7 +22,7 @@ EXTENDS Naturals, Sequences, FiniteSets, TLC
 INF == 1000000000          \* rendering of TimeStamp::MAX in events
 
 VARIABLES
-  tables,   \* Seq of [key, g, co, flo, answers, strands, mode]   (Tables/Table)
+  tables,   \* Seq of [key, g, co, flo, answers, strands, mode, refined]   (Tables/Table)
   clock,    \* Forest.clock
   stack,    \* Seq of [table, clock, minPos, minNeg, active]       (Stack/StackEntry)
   pc,       \* control point inside ensure_root_answer / root_answer
@@ -109,7 +109,16 @@ Deselect(s) == [s EXCEPT !.sel = 0, !.selT = 0, !.selA = 0]
    not depend on variable numbering is equal *)
 Shape(s) == [nl |-> Len(s.lits), signs |-> [i \in 1..Len(s.lits) |-> s.lits[i].pos],
              nf |-> Len(s.flo), nd |-> Len(s.del), sel |-> s.sel, selT |-> s.selT,
-             selA |-> s.selA, last |-> s.last, amb |-> s.amb, atime |-> s.atime]
+             selA |-> s.selA, last |-> s.last, amb |-> s.amb, atime |-> s.atime, ref |-> s.ref]
+
+(* create_refinement_strand: the delayed subgoals of an answer become the subgoals of a strand
+   that also remembers them (del) as goals it has already taken into account *)
+IsRefinementOf(n, a) ==
+  /\ Len(n.lits) = Len(a.del) /\ Len(n.del) = Len(a.del)
+  /\ \A i \in 1..Len(n.lits) : n.lits[i].pos
+  /\ n.flo = <<>> /\ n.sel = 0 /\ n.last = 0 /\ n.atime = 0
+  /\ n.amb = a.amb /\ n.ref
+NoDup(seq) == \A i, j \in 1..Len(seq) : i # j => seq[i] # seq[j]
 
 ----------------------------------------------------------------------------
 (* Exits of ensure_root_answer.  `Exit(res, stk, tbls)`: the call returns `res`; if the
@@ -154,9 +163,10 @@ DoTableNew(e) ==
   /\ e.flo => e.strands = <<>>
   /\ \A i \in 1..Len(e.strands) :
         e.strands[i].sel = 0 /\ e.strands[i].last = 0 /\ e.strands[i].flo = <<>>
-        /\ e.strands[i].del = <<>> /\ e.strands[i].atime = 0
+        /\ e.strands[i].del = <<>> /\ e.strands[i].atime = 0 /\ ~e.strands[i].ref
   /\ tables' = Append(tables, [key |-> e.key, g |-> e.g, co |-> e.co, flo |-> e.flo,
-                               answers |-> <<>>, strands |-> e.strands, mode |-> "Complete"])
+                               answers |-> <<>>, strands |-> e.strands, mode |-> "Complete",
+                               refined |-> {}])
   /\ pc' = IF pc = "idle" THEN "idle" ELSE "selectnew"
   /\ op' = IF pc = "idle" THEN [op EXCEPT !.phase = "streamnew"] ELSE op
   /\ UNCHANGED <<clock, stack, held, exitRes, stT, stA, lastRes, lost>>
@@ -323,15 +333,19 @@ DoMerge(e) ==
                             /\ n.amb = (s.amb \/ ans.amb)
                             /\ n.atime = s.atime + 1
                             /\ Len(n.flo) = Len(s.flo)
-                            /\ Len(n.del) = Len(s.del) + Len(ans.del)
-                            /\ Len(n.lits) >= Len(s.lits) - 1   \* unification may add subgoals
+                            /\ n.ref = s.ref
+                            \* each delayed subgoal is kept once
+                            /\ Len(n.del) >= Len(s.del) /\ Len(n.del) <= Len(s.del) + Len(ans.del)
+                            \* a refinement strand evaluates the delayed subgoals it has not met before
+                            /\ Len(n.lits) >= Len(s.lits) - 1 + (IF s.ref THEN Len(n.del) - Len(s.del) ELSE 0)
+                                                                \* (unification may add subgoals)
                        /\ stack' = SetTop(stack, [Top EXCEPT !.active = e.strand])
                        /\ tables' = tb1 /\ held' = <<>> /\ pc' = "loop" /\ exitRes' = exitRes
                     ELSE
                        /\ e.strand = <<>>
                        /\ ExitUnwound("QuantumExceeded", stack, tb1)
               ELSE
-                 /\ ans.del = <<>>                 \* else the code panics
+                 /\ ans.del = <<>>                 \* else: NegSkip
                  /\ IF ~ans.amb THEN
                        /\ e.outcome = "negfail" /\ e.strand = <<>>
                        /\ ExitUnwound("QuantumExceeded", stack, tb1)
@@ -354,10 +368,29 @@ DoCycleCo(e) ==
      /\ d # 0 /\ CoFrom(d)
      /\ s.lits[s.sel].pos                          \* negative: the code panics
      /\ e.strand = [Deselect(s) EXCEPT !.lits = RemoveAt(s.lits, s.sel),
-                                       !.del = Append(s.del, s.lits[s.sel].g)]
+                                       !.del = IF \E i \in 1..Len(s.del) : s.del[i] = s.lits[s.sel].g
+                                               THEN s.del ELSE Append(s.del, s.lits[s.sel].g)]
      /\ stack' = SetTop(stack, [Top EXCEPT !.active = <<e.strand>>])
   /\ held' = <<>> /\ pc' = "loop"
   /\ UNCHANGED <<tables, clock, exitRes, stT, stA, lastRes, op, lost>>
+
+\* event NegSkip{refine}: the selected literal is negative and the tabled answer it would look at
+\* still has delayed subgoals: have them evaluated by a refinement strand on that table (once per
+\* answer) and look at the table's next answer instead
+DoNegSkip(e) ==
+  /\ pc = "selected"
+  /\ LET s == held[1]
+         t == s.selT + 1
+     IN
+     /\ ~s.lits[s.sel].pos
+     /\ s.selA < Len(tables[t].answers)
+     /\ tables[t].answers[s.selA + 1].del # <<>>
+     /\ IF s.selA \in tables[t].refined THEN e.refine = <<>> /\ tables' = tables
+        ELSE /\ Len(e.refine) = 1 /\ IsRefinementOf(e.refine[1], tables[t].answers[s.selA + 1])
+             /\ tables' = [Enq(tables, t, e.refine[1]) EXCEPT ![t].refined = @ \cup {s.selA}]
+     /\ stack' = SetTop(stack, [Top EXCEPT !.active = <<[s EXCEPT !.selA = s.selA + 1]>>])
+  /\ held' = <<>> /\ pc' = "loop"
+  /\ UNCHANGED <<clock, exitRes, stT, stA, lastRes, op, lost>>
 
 \* event CyclePos{minPos, minNeg}: on_positive_cycle
 DoCyclePos(e) ==
@@ -391,7 +424,8 @@ AnswerWanted == pc = "answer" /\ ~(tables[TopT].mode = "Complete" /\ held[1].amb
 DoAnswerTooLarge(e) ==
   /\ AnswerWanted /\ held[1].lits = <<>>
   /\ ExitUnwound("QuantumExceeded", stack,
-                 [tables EXCEPT ![TopT].flo = TRUE, ![TopT].strands = <<>>, ![TopT].answers = <<>>])
+                 [tables EXCEPT ![TopT].flo = TRUE, ![TopT].strands = <<>>, ![TopT].answers = <<>>,
+                                ![TopT].refined = {}])
   /\ UNCHANGED <<clock, stT, stA, lastRes, op, lost>>
 
 \* event AnswerDup{key}: push_answer found the answer in answers_hash
@@ -411,8 +445,9 @@ DoAnswerNew(e) ==
   /\ e.key \notin AnswerKeys(TopT)
   /\ e.idx = Len(tables[TopT].answers)
   /\ e.amb = held[1].amb
-  /\ e.trivial => e.trivsub
+  /\ e.trivial => e.trivsub /\ e.del = <<>>       \* an answer with delayed subgoals is not trivial
   /\ Len(e.del) <= Len(held[1].del)               \* self-cycle delayed subgoals are dropped
+  /\ held[1].ref => e.del = <<>>                  \* a refinement strand has evaluated them all
   /\ tables' = [tables EXCEPT
         ![TopT].answers = Append(@, [key |-> e.key, amb |-> e.amb, del |-> e.del,
                                      trivsub |-> e.trivsub]),
@@ -435,11 +470,8 @@ DoRefine(e) ==
   /\ pc = "answered" /\ Len(stack) = 1
   /\ LastAnswer(TopT).del # <<>>
   /\ LET n == e.strand IN
-       /\ Len(n.lits) = Len(LastAnswer(TopT).del)
-       /\ \A i \in 1..Len(n.lits) : n.lits[i].pos
-       /\ n.flo = <<>> /\ n.del = <<>> /\ n.sel = 0 /\ n.last = 0 /\ n.atime = 0
-       /\ n.amb = LastAnswer(TopT).amb
-       /\ tables' = Enq(tables, TopT, n)
+       /\ IsRefinementOf(n, LastAnswer(TopT))
+       /\ tables' = [Enq(tables, TopT, n) EXCEPT ![TopT].refined = @ \cup {Len(tables[TopT].answers) - 1}]
   /\ pc' = "refined"
   /\ UNCHANGED <<clock, stack, held, exitRes, stT, stA, lastRes, op, lost>>
 
@@ -531,12 +563,25 @@ DoDropState(e) ==
   /\ stack' = <<>>
   /\ UNCHANGED <<clock, pc, held, exitRes, stT, stA, lastRes, op, lost>>
 
+\* event RefineLate{strand}: root_answer found the requested answer, but it still has delayed
+\* subgoals and nobody has created its refinement strand (the table was not the root when it
+\* published the answer)
+DoRefineLate(e) ==
+  /\ pc = "exit" /\ stack = <<>> /\ held = <<>> /\ exitRes = "Answer"
+  /\ stA < Len(tables[stT].answers)
+  /\ tables[stT].answers[stA + 1].del # <<>>
+  /\ stA \notin tables[stT].refined
+  /\ IsRefinementOf(e.strand, tables[stT].answers[stA + 1])
+  /\ tables' = [Enq(tables, stT, e.strand) EXCEPT ![stT].refined = @ \cup {stA}]
+  /\ UNCHANGED <<clock, stack, pc, held, exitRes, stT, stA, lastRes, op, lost>>
+
 \* event RootEnd{res, amb}: root_answer returned to peek_answer
 DoRootEnd(e) ==
   /\ pc = "exit" /\ stack = <<>> /\ held = <<>>
   /\ LET a == tables[stT].answers IN
      IF exitRes = "Answer" THEN
         /\ stA < Len(a)
+        /\ a[stA + 1].del # <<>> => stA \in tables[stT].refined     \* RefineLate comes first
         /\ IF a[stA + 1].del # <<>> THEN e.res = "InvalidAnswer" /\ e.amb = FALSE
            ELSE e.res = "Answer" /\ e.amb = a[stA + 1].amb
      ELSE e.res = exitRes /\ e.amb = FALSE
@@ -653,6 +698,8 @@ Step(e) ==
     [] e.ev = "SubFloundered" -> DoSubFloundered(e)
     [] e.ev = "Merge"         -> DoMerge(e)
     [] e.ev = "CycleCo"       -> DoCycleCo(e)
+    [] e.ev = "NegSkip"       -> DoNegSkip(e)
+    [] e.ev = "RefineLate"    -> DoRefineLate(e)
     [] e.ev = "CyclePos"      -> DoCyclePos(e)
     [] e.ev = "Requeue"       -> DoRequeue(e)
     [] e.ev = "AnswerTooLarge" -> DoAnswerTooLarge(e)
@@ -708,6 +755,7 @@ TablesWellFormed ==
        /\ \A i, j \in 1..Len(tables[t].answers) :                          \* NoDuplicateAnswer
             i # j => tables[t].answers[i].key # tables[t].answers[j].key
        /\ \A i \in 1..Len(tables[t].strands) : StrandOK(tables[t].strands[i])
+       /\ \A i \in tables[t].refined : i < Len(tables[t].answers) /\ tables[t].answers[i + 1].del # <<>>
 
 MinimumsSane ==
   \A i \in 1..Len(stack) : stack[i].minPos <= INF /\ stack[i].minNeg <= INF
